@@ -240,7 +240,7 @@ static Style random_style(hz::Rng &rng, bool allow_radix) {
   if (rng.below(3) == 0) { st.sp_op = (int)rng.below(3); if (st.sp_op) n++; }
   if (rng.below(3) == 0) { st.lead = 1 + (int)rng.below(6); st.lead_tab = rng.coin(); n++; }
   if (rng.below(4) == 0) { st.trail = 1 + (int)rng.below(3); n++; }
-  if (rng.below(3) == 0) { static const char *C[] = {";", "; comment", ";mov rax, rbx", " ; x:y, [z]", ";;; 100% \"quoted\" 'text' \\ | ~", "; section global", ";\t tab"}; st.comment = C[rng.below(7)]; n++; }
+  if (rng.below(3) == 0) { static const char *C[] = {";", "; comment", ";mov rax, rbx", " ; x:y, [z]", ";;; 100% \"quoted\" 'text' \\ | ~", "; section global", ";\t tab", "; see c:\\asm\\", ";\\", "; gr\xc3\xb6\xc3\x9f" "er \xe2\x86\x92"}; st.comment = C[rng.below(10)]; n++; }
   if (allow_radix && rng.below(2)) { st.radix = 1 + (int)rng.below(4); n += 2; }
   // occasionally a very long run of blanks (the property does not bound the amount of blanks)
   if (rng.below(8) == 0) { st.big_where = 1 + (int)rng.below(5); st.big_n = 40 + (int)rng.below(260); st.big_tab = rng.coin(); n += 2; }
@@ -262,7 +262,7 @@ static SpV check_spelling(const Intent &it, int combo, uint64_t styleseed) {
 // programs with blank / comment / label / directive lines inserted at every position, LF vs CRLF
 static SpV check_program_noise(const std::vector<std::string> &lines, int combo, uint64_t seed, std::string *prog_out) {
   SpV v; hz::Rng rng(seed);
-  static const char *NOISE[] = {"", "   ", "; a comment", "label:", "  loop_1:  ; with comment", "section .text", "global _start", "%define X 5", "SECTION .data", "\t; indented comment", "GLOBAL main", "%macro foo 0", ".L1:", "done: ", "top:\t", "loop: ; top of the loop", "a1: ;", "end:   ;;; x", "  exit:", "start :", "  loop_2   :   ; head", "x\t:", "section\t.text", "GLOBAL\tmain", "\tsection\t.data\t; d", "global\t\t_start"};
+  static const char *NOISE[] = {"", "   ", "; a comment", "label:", "  loop_1:  ; with comment", "section .text", "global _start", "%define X 5", "SECTION .data", "\t; indented comment", "GLOBAL main", "%macro foo 0", ".L1:", "done: ", "top:\t", "loop: ; top of the loop", "a1: ;", "end:   ;;; x", "  exit:", "start :", "  loop_2   :   ; head", "x\t:", "section\t.text", "GLOBAL\tmain", "\tsection\t.data\t; d", "global\t\t_start", "section .bss", "SECTION .rodata", "section .note.GNU-stack noalloc noexec nowrite progbits", "; trailing backslash \\"};
   bool crlf = rng.coin(); std::string nl = crlf ? "\r\n" : "\n";
   std::string canon, noisy; size_t pos = rng.below(lines.size() + 1); bool everywhere = rng.below(3) == 0;
   for (size_t i = 0; i <= lines.size(); i++) {
@@ -271,7 +271,7 @@ static SpV check_program_noise(const std::vector<std::string> &lines, int combo,
           static const char *END[] = {"", "", "s", "cs", "ds", "es", "fs", "gs", "ss", "ax", "rax", "al", "word", "ptr", "far", "x", "0x1", "_", "1", "mm0", "section_", "h"};
           std::string name; int len = (int)rng.below(10); for (int q = 0; q < len; q++) name += "abcdefghijklmnopqrstuvwxyz_ABCDEFXYZ0123456789."[q == 0 ? rng.below(27) : rng.below(47)]; name += END[rng.below(22)]; if (name.empty() || isdigit((unsigned char)name[0])) name = "L" + name;
           static const char *AFTER[] = {"", "", " ", "\t", " ; comment", ";x"}; static const char *BEFORE[] = {"", "", "", " ", "   ", "\t"}; noisy += std::string(rng.below(4) == 0 ? "  " : "") + name + BEFORE[rng.below(6)] + ":" + AFTER[rng.below(6)] + nl; }
-        else noisy += std::string(NOISE[rng.below(26)]) + nl; } }
+        else noisy += std::string(NOISE[rng.below(30)]) + nl; } }
     if (i < lines.size()) { canon += lines[i] + "\n"; noisy += lines[i] + nl; }
   }
   if (rng.coin() && !noisy.empty()) { // final line without terminator
